@@ -473,6 +473,7 @@ def run(repo: Repo, chk: Check, thorough: bool = False) -> None:
     chk.stats['handler_arguments_checked'] = n_h
 
     check_r10_10(repo, chk)
+    check_r10_9_image(repo, chk)
     # ------------------------------------------------------------------ R10.9
     # two places where docutils itself turns docstring text into markup or script, and pydoctor's translator is the only place to stop it:
     #  (a) math: the html4css1 default `math_output = HTML` runs math2html, which copies the arguments of \text{} / \mbox{} / \href{} unescaped;
@@ -728,3 +729,16 @@ def check_r10_10(repo: Repo, chk: Check) -> None:
     if n < 1:
         raise AnalysisError('R10.10: no override of an escaping primitive found (1 confirmed: HTMLTranslator.starttag)')
     chk.require('R10.10', 1)
+
+
+def check_r10_9_image(repo: Repo, chk: Check) -> None:
+    # third docutils path that writes docstring text unescaped (after math2html and link schemes): html4css1.visit_image presents svg / swf / mp4 ...
+    # images with an <object> element and copies `node.get('alt', uri)` between its tags verbatim; pydoctor re-parses the writer's output, so the text
+    # becomes real elements.  The translator has to take that path over and escape the text (encode) - or avoid <object> altogether
+    tr = repo.classes.get(TRANSLATOR)
+    vi = tr.methods.get('visit_image') if tr is not None else None
+    ok = vi is not None and any(call_name(c) == 'encode' for c in calls_in(vi))
+    chk.ob('R10.9', f'{TRANSLATOR} :: the alternate text of an <object> image is escaped', ok,
+           'visit_image is overridden and escapes the text' if ok else
+           '`.. image:: states.svg` with `:alt: <script>alert("alt")</script>` (or, without :alt:, the address itself) puts a real <script> element inside the <object> tag '
+           'of the page: the inherited html4css1.visit_image writes the text without encode()', tr.loc if tr is not None else 'pydoctor/node2stan.py')
